@@ -79,8 +79,8 @@ class LocationTableEntry:
             Position vector to update.
         """
         with self.position_vector_lock:
-            if self.position_vector.tst.msec == 0:
-                # §C.2: initial entry – accept first PV unconditionally.
+            if self.position_vector == LongPositionVector():
+                # §C.2: initial entry (still the default PV) – accept first PV unconditionally.
                 # TST.__gt__ comparison against TST(0) is unreliable for current
                 # real-world timestamps (mod 2^32 > 2^31) due to wrap-around logic.
                 self.position_vector = position_vector
